@@ -369,23 +369,49 @@ func c02Order(w *World, r *Report, ra *repoAnchors) {
 		}
 	})
 	r.Ob(ri, w.FnName(add)+"|appends-at-end", add.Pos(), ok, "Tree.Add must store append(node.values, value) back into node.values (no prepend, no reordering)")
-	// writers of the values field: Add, the delete path and the clone
-	writers := map[string]bool{}
+	// every store into the values of a node keeps the relative order of what was there: an append of
+	// one value, an order-preserving removal, a copy / move of another node's list, or nil
 	for _, fn := range w.Funcs {
-		if !strings.HasSuffix(fnPkgPath(fn), "/radixtree") || fn.Origin() == nil && fn.TypeParams().Len() > 0 {
+		if !strings.HasSuffix(fnPkgPath(fn), "/radixtree") || fn.Origin() == nil && fn.TypeParams().Len() > 0 || fn.Blocks == nil {
 			continue
 		}
+		nStores := 0
 		eachInstr(fn, func(in ssa.Instruction) {
-			if st, isSt := in.(*ssa.Store); isSt && pathEndsWith(st.Addr, nodeValuesFieldName) {
-				if _, isFA := st.Addr.(*ssa.FieldAddr); isFA {
-					name := fn.Name()
-					if i := strings.Index(name, "["); i > 0 {
-						name = name[:i]
+			st, isSt := in.(*ssa.Store)
+			if !isSt || !pathEndsWith(st.Addr, nodeValuesFieldName) {
+				return
+			}
+			if _, isFA := st.Addr.(*ssa.FieldAddr); !isFA {
+				return
+			}
+			nStores++
+			okS := true
+			for _, o := range w.Origins(st.Val, nil) {
+				o = stripConv(o)
+				switch x := o.(type) {
+				case *ssa.Const:
+					// nil
+				case *ssa.MakeSlice, *ssa.Slice:
+				case *ssa.UnOp:
+					// another node's list, moved as a whole
+					if !pathEndsWith(x, nodeValuesFieldName) {
+						okS = false
 					}
-					writers[name] = true
-					// no sort of values anywhere
+				case *ssa.Call:
+					n := callName(x.Common())
+					if b, isB := x.Call.Value.(*ssa.Builtin); isB && b.Name() == "append" {
+						n = "append"
+					}
+					switch {
+					case n == "append", n == "slices.Clone", strings.HasPrefix(n, "slices.Delete"), n == "slices.Clip", n == "slices.Grow":
+					default:
+						okS = false
+					}
+				default:
+					okS = false
 				}
 			}
+			r.Ob(ri, fmt.Sprintf("%s|values-store-keeps-order#%d", w.FnName(fn), nStores), st.Pos(), okS, "the values of a node are replaced by something that is not an append, an order-preserving removal or a copy of a values list: the rule-set order of rules sharing the expression may be lost")
 		})
 		for _, c := range callsIn(fn) {
 			if isSortCall(c.Common()) || strings.HasPrefix(callName(c.Common()), "slices.Reverse") {
@@ -397,11 +423,6 @@ func c02Order(w *World, r *Report, ra *repoAnchors) {
 			}
 		}
 	}
-	var ws []string
-	for k := range writers {
-		ws = append(ws, k)
-	}
-	r.Ob(ri, "writers-of-values", token.NoPos, len(ws) >= 2 && len(ws) <= 3, "unexpected set of functions writing node.values: "+strings.Join(ws, ","))
 	// the repository adds rules and routes in slice order
 	for _, fn := range w.Funcs {
 		if fnPkgPath(fn) != ra.t.Obj().Pkg().Path() || w.isMockFn(fn) {
@@ -589,11 +610,25 @@ func c03RouteMatchers(w *World, r *Report, pa *pipelineAnchors, fa *factoryAncho
 			}
 		}
 		r.Ob(ri2, key+"|route-level-all-of", a.Pos(), pol[tname] == "all", "the route's conditions must be combined with an all-of combinator (found "+tname+")")
-		if !isSl {
-			r.Ob(ri1, key+"|four-matchers", a.Pos(), false, "the route matcher is not a literal list of matchers")
-			return
+		var els []ssa.Value
+		if isSl {
+			els = sliceLiteralElems(sl)
+		} else {
+			// a list put together with append: the elements of the base list plus what is appended;
+			// the list of each route must then be its own storage
+			var inner ssa.Value = mv
+			if ct, isCT := mv.(*ssa.MakeInterface); isCT {
+				inner = ct.X
+			}
+			var shared string
+			var okL bool
+			els, shared, okL = listElems(w, stripConvKeepSlice(inner), a.Block(), 0)
+			if !okL {
+				r.Ob(ri1, key+"|four-matchers", a.Pos(), false, "the route matcher is neither a literal list of matchers nor one built by append from such lists")
+				return
+			}
+			r.Ob(ri1, key+"|matcher-list-own-storage", a.Pos(), shared == "", "the matcher list of a route is appended to a list that is shared by all routes and has spare capacity ("+shared+"): every route ends up with the conditions appended for the last one")
 		}
-		els := sliceLiteralElems(sl)
 		want := map[string]bool{"scheme": false, "methods": false, "hosts": false, "path_params": false}
 		for _, el := range els {
 			if el == nil {
@@ -1464,4 +1499,99 @@ func c03CapturesSurvive(w *World, r *Report, ra *repoAnchors) {
 	if n == 0 {
 		r.Undecided(ri, "no recursive descent with a captures argument found")
 	}
+}
+
+
+func stripConvKeepSlice(v ssa.Value) ssa.Value {
+	for {
+		switch x := v.(type) {
+		case *ssa.ChangeType:
+			v = x.X
+		case *ssa.MakeInterface:
+			v = x.X
+		default:
+			return v
+		}
+	}
+}
+
+// listElems: the elements of a slice value that is a literal, or built by append(base, elems...)
+// from such values (base followed through phis of a single definition and locals). shared names a
+// base list that was created outside the loop the append runs in and may have spare capacity (make
+// with a capacity, or itself the result of an append): appending to it in every iteration writes
+// into the same backing array.
+func listElems(w *World, v ssa.Value, at *ssa.BasicBlock, depth int) (els []ssa.Value, shared string, ok bool) {
+	if depth > 4 {
+		return nil, "", false
+	}
+	v = stripConvKeepSlice(v)
+	switch x := v.(type) {
+	case *ssa.Slice:
+		if e := sliceLiteralElems(x); e != nil {
+			return e, "", true
+		}
+		return listElems(w, x.X, at, depth+1)
+	case *ssa.MakeSlice:
+		return nil, "", true
+	case *ssa.Const:
+		if x.Value == nil {
+			return nil, "", true
+		}
+	case *ssa.Call:
+		b, isB := x.Call.Value.(*ssa.Builtin)
+		if isB && b.Name() == "append" && len(x.Call.Args) == 2 {
+			base, sh, ok1 := listElems(w, x.Call.Args[0], x.Block(), depth+1)
+			add, _, ok2 := listElems(w, x.Call.Args[1], x.Block(), depth+1)
+			if !ok1 || !ok2 {
+				return nil, "", false
+			}
+			// is the base list defined outside a loop that contains this append, with possible spare capacity?
+			if sh == "" {
+				bv := stripConvKeepSlice(x.Call.Args[0])
+				if bi, isInstr := bv.(ssa.Instruction); isInstr && bi.Block() != x.Block() && inLoopWithout(x.Block(), bi.Block()) {
+					switch y := bv.(type) {
+					case *ssa.MakeSlice:
+						sh = "make with a capacity"
+					case *ssa.Call:
+						if yb, ok := y.Call.Value.(*ssa.Builtin); ok && yb.Name() == "append" {
+							sh = "the result of an earlier append"
+						}
+					}
+				}
+			}
+			return append(append([]ssa.Value{}, base...), add...), sh, true
+		}
+		if n := callName(x.Common()); n == "slices.Clone" || n == "slices.Clip" {
+			e, _, ok := listElems(w, x.Call.Args[0], at, depth+1)
+			return e, "", ok
+		}
+	case *ssa.Phi:
+		// a loop-carried list is not handled
+	}
+	return nil, "", false
+}
+
+// inLoopWithout: block b lies on a cycle that does not contain block d (d is evaluated once, b repeatedly).
+func inLoopWithout(b, d *ssa.BasicBlock) bool {
+	seen := map[*ssa.BasicBlock]bool{}
+	var walk func(x *ssa.BasicBlock) bool
+	walk = func(x *ssa.BasicBlock) bool {
+		if x == d {
+			return false
+		}
+		if seen[x] {
+			return false
+		}
+		seen[x] = true
+		for _, s := range x.Succs {
+			if s == b {
+				return true
+			}
+			if walk(s) {
+				return true
+			}
+		}
+		return false
+	}
+	return walk(b)
 }
